@@ -130,8 +130,35 @@ W = dict(rd.DEFAULT_W, fault=0.0, unser=0.0, discard=0.0, interrupt=0.02, raise_
          missing_opts=0.5, fallbacks=0.35, handler=0.3)
 
 
+def extra_cases():
+    """(a) primary key wins over a fallback key that was recorded EARLIER; the first listed present fallback wins;
+    (b) a replay that escapes with RecordingKeyError after some output calls must not disturb the next replay."""
+    cases = []
+    for handler in ("none", "wrap"):
+        P = opdef(seq([in_site("a1", pv.i(1), pv.i(11), handler=handler), in_site("a2", pv.i(1), pv.i(12), handler=handler),
+                       in_site("a0", pv.i(1), pv.i(10), handler=handler)], {"k": "ret", "e": {"lit": pv.s("done")}}))
+        for alias, fbl, want in (("a0", ["a1"], 10), ("a0", ["a2", "a1"], 10), ("zz", ["a2", "a1"], 12), ("zz", ["a1", "a2"], 11),
+                                 ("zz", ["q", "a2"], 12)):
+            for fk in ("list", "fun"):
+                probe = in_site(alias, pv.i(1), pv.i(99), handler=handler, fallbacks={"kind": fk, "l": fbl})
+                Pp = opdef(dict(k="try", c=seq([probe], {"k": "ret", "e": {"var": 0}}), h={"k": "ret", "e": {"lit": pv.s("caught")}}))
+                cases.append((P, [Pp], dict(kind="in", alias=alias, expect=("val", pv.i(want), False))))
+    P = opdef(seq([out_site("o0", pv.i(1), pv.i(20)), out_site("o0", pv.i(2), pv.i(21))], {"k": "ret", "e": {"lit": pv.s("done")}}))
+    aborting = opdef(seq([out_site("o0", pv.i(1), pv.i(99)), out_site("o0", pv.i(2), pv.i(99)), out_site("o0", pv.i(3), pv.i(99))],
+                         {"k": "ret", "e": {"lit": pv.s("done")}}))
+    second = opdef(dict(k="try", c=seq([out_site("o0", pv.i(7), pv.i(99)), out_site("o0", pv.i(8), pv.i(99))], {"k": "ret", "e": {"var": 1}}),
+                        h={"k": "ret", "e": {"lit": pv.s("caught")}}))
+    cases.append((P, [aborting, second], dict(kind="out", alias="o0", expect=("val", pv.i(21), False), only_run=2)))
+    return cases
+
+
 def generate(rng, tier):
     cases = []
+    for P, plays, probe in extra_cases():
+        runs = [dict(kind="record", enabled=True, prm=PRM, op=rd.clean(P), save_fails=False)]
+        for Pp in plays:
+            runs.append(dict(kind="play", target=0, pf={"kind": "op", "op": rd.clean(Pp)}, enabled=False))
+        cases.append(dict(draws=[], runs=runs, cassette="memory", probe=probe, store_check=True, no_repeat_check=True))
     for k, (P, Pp, probe) in enumerate(probe_cases()):
         reps = 1 + (k % 3)
         runs = [dict(kind="record", enabled=True, prm=PRM, op=rd.clean(P), save_fails=False)]
@@ -177,7 +204,7 @@ def direct(case, obs):
             if ran and not depth_ok:
                 fails.append(("body-executed-during-replay", "run %d: wrapped bodies ran while replaying: %s" % (i, ran)))
     # repeated replays agree
-    for (i, a), (j, b_) in zip(plays, plays[1:]):
+    for (i, a), (j, b_) in ([] if case.get("no_repeat_check") else zip(plays, plays[1:])):
         for f in ("outcome", "trace", "pbouts", "recouts"):
             if a[f] != b_[f]:
                 fails.append(("replays-differ", "replays %d and %d of the same recording differ in %s" % (i, j, f)))
@@ -186,6 +213,8 @@ def direct(case, obs):
     if probe:
         kind, want, body_runs = probe["expect"]
         for i, ob in plays:
+            if probe.get("only_run") is not None and i != probe["only_run"]:
+                continue
             calls = [e for e in ob["trace"] if e["e"] == "call" and e["alias"] == probe["alias"]]
             if not calls:
                 fails.append(("probe-not-called", "run %d" % i))
